@@ -2,7 +2,7 @@
 generation (the planner tracks a model while it plans so that present/missing
 keys can be chosen on purpose), container set-up, structural checks."""
 from .. import domains, ops, walker
-from ..core import Violation
+from ..core import Violation, Precondition
 from ..domains import Domain, is_mapping, is_tree
 
 
@@ -263,3 +263,16 @@ def structural(c, dom, cfg, ctx, model_listing=None, check_sizes=True,
 
 def fam_class(fam):
     return fam[0] + fam[1] if fam != "fs" else "fs"
+
+
+def commit(conn, ctx, **kw):
+    """commit; a run in which the known stored-state defect of C04
+    ("inline-duplicate", see known_findings.json) has fired is abandoned for
+    every property but C04 -- what it would observe from then on is the
+    damage that finding describes, not its own property."""
+    r = conn.commit(**kw)
+    if conn.hazards:
+        if ctx is not None:
+            ctx.probe("abandoned:known-C04-inline-duplicate")
+        raise Precondition("known C04 finding: " + conn.hazards[0][0])
+    return r
